@@ -81,7 +81,8 @@ def body(led):
 
 def _standin(led):
     from . import sparse_standin
-    sparse_standin.check(led, ['make_skew_symmetric', 'finalize_symmetric_matrix'])
+    from . import sparse_proof
+    sparse_proof.check(led, ['make_skew_symmetric', 'finalize_symmetric_matrix'])
 
 
 def main():
